@@ -733,7 +733,12 @@ func Eval(t *Term, m Model, cache map[*Term]Val) (Val, bool) {
 	case "var":
 		v, ok := m[t.Name]
 		if !ok {
-			return Val{}, false
+			// a variable the solver never saw is unconstrained: any value
+			// extends the model; use zero (deterministically).
+			if t.S.K == KReal {
+				return Val{R: new(big.Rat)}, true
+			}
+			return Val{}, true
 		}
 		if t.S.K == KReal && v.R == nil {
 			return Val{}, false
